@@ -145,6 +145,9 @@ def run_crosshair(inst):
                 continue
             res["inconclusive"].append({"instance": inst, "query": "crosshair", "reason": l.split(":", 3)[-1].strip()[:120]})
     res["counters"]["crosshair_confirmed"] = nconf
+    if nconf + len(res["violations"]) + len(res["inconclusive"]) == 0 and re.search(r"(ImportError|AttributeError).*(jaxley|cannot import name)", out):
+        res["inconclusive"].append({"instance": inst, "query": "anchor", "reason": "anchored name not found in the analysed tree: " + (re.findall(r"(?:ImportError|AttributeError)[^\n]*", out) or [""])[-1][:200]})
+        res["counters"]["anchor_missing"] = 1
     if nconf + len(res["violations"]) + len(res["inconclusive"]) == 0:
         res.setdefault("errors", []).append({"instance": inst, "error": f"no CrossHair verdict lines: {out[-400:]}"})
     res["stats"] = {"queries": 6, "unsat": nconf, "sat": len(res["violations"]), "unknown": len(res["inconclusive"]), "error": 0, "solver_s": dt}
